@@ -555,6 +555,7 @@ pub fn call_rv(it: &mut Interp, name: &str, args: &[RV], vals: &[Val]) -> Result
             match contract(name, vals) {
                 Expect::Is(v) => Ok(super::interp::from_val(&v)),
                 Expect::Error => Err(rt(name)),
+                Expect::Pred(d, _) if d == "an error object" => Ok(RV::Err("error".into())),
                 _ => Err(Stop::Unspecified(format!("builtin {} on these arguments", name))),
             }
         }
